@@ -1,3 +1,4 @@
 import KiraModel.Props.C13_a
 import KiraModel.Props.C13_b
 import KiraModel.Props.C13_real
+import KiraModel.Proofs.GenAgreeFx
